@@ -164,6 +164,9 @@ pub fn gen_c13(seed: u64, tier: &str) -> Value {
                 let mut q = json!({"method": *r.pick(&["GET", "POST", "PUT"]), "target": target, "headers": hs, "tok": format!("t{}", tokn)});
                 if q["method"] != "GET" {
                     q["body"] = json!({"len": r.below(2000), "seed": r.next() >> 8, "ascii": false});
+                    if r.chance(1, 4) {
+                        q["slow"] = crate::gen::gen_slow(&mut r);
+                    }
                 }
                 if r.chance(1, 4) {
                     let st = *r.pick(&[200u64, 500, 404]);
@@ -179,7 +182,28 @@ pub fn gen_c13(seed: u64, tier: &str) -> Value {
             let how = format!("{}:{}:{}", *r.pick(&["reset_after_send", "reset_after_send", "fin_after_send"]), *r.pick(&[0u64, 0, 1]), r.below(12));
             conns.push(json!({"proc": r.below(3), "dst": *r.pick(&["imds", "wire", "direct"]), "start_ms": r.below(30), "close": how, "reqs": []}));
         }
-        steps.push(json!({"t": "clients", "conns": conns}));
+        // a third of the batches: the host changes its mind while the requests are in flight (channel disabled and the
+        // key cleared, keys rotated, channel enabled again) - handlers that are waiting for a slow client wake up in
+        // another state than they started in
+        if r.chance(1, 3) {
+            let mut during = Vec::new();
+            let mut t = r.below(1500);
+            for _ in 0..1 + r.below(3) {
+                let act = match r.below(4) {
+                    0 | 1 => json!({"t": "doc", "doc": doc_v1("disabled")}),
+                    2 => json!({"t": "doc", "doc": doc_v1(*r.pick(&["wireserver", "wireserverandimds"]))}),
+                    _ => json!({"t": "host_latch", "mode": *r.pick(&["none", "new"])}),
+                };
+                during.push(json!({"after_ms": t, "do": act}));
+                t += 200 + r.below(12_000);
+            }
+            steps.push(json!({"t": "clients_with", "conns": conns, "during": during}));
+            // back to a document that makes denials happen
+            steps.push(json!({"t": "doc", "doc": doc.clone()}));
+            steps.push(json!({"t": "wait_polls", "n": 1, "max_s": 300}));
+        } else {
+            steps.push(json!({"t": "clients", "conns": conns}));
+        }
         if r.chance(1, 3) {
             steps.push(json!({"t": "sleep", "ms": *r.pick(&[61_000u64, 130_000])}));
         }
